@@ -803,9 +803,10 @@ def _tailify(block, make):
 def _bind(h: ast.FunctionDef, call: ast.Call, receiver):
     """parameter name -> argument expression, or None if the call does not fit the simple protocol"""
     a = h.args
-    if a.vararg or a.kwarg or a.posonlyargs:
+    if a.vararg or a.kwarg:
         return None
-    params = [p.arg for p in a.args]
+    posonly = [p.arg for p in a.posonlyargs]
+    params = posonly + [p.arg for p in a.args]
     binding = {}
     if receiver is not None:
         if not params:
@@ -820,10 +821,10 @@ def _bind(h: ast.FunctionDef, call: ast.Call, receiver):
         binding[p] = x
     kwonly = [p.arg for p in a.kwonlyargs]
     for k in call.keywords:
-        if k.arg in binding or k.arg not in params + kwonly:
+        if k.arg in binding or k.arg not in params + kwonly or k.arg in posonly:
             return None
         binding[k.arg] = k.value
-    all_pos = [p.arg for p in a.args]
+    all_pos = posonly + [p.arg for p in a.args]
     defaults = dict(zip(all_pos[len(all_pos) - len(a.defaults):], a.defaults))
     for p, d in zip(kwonly, a.kw_defaults):
         if d is not None:
@@ -1051,6 +1052,7 @@ def inline_helpers(fn: ast.FunctionDef, resolve=None):
         used = any(isinstance(n, ast.Name) and n.id == name and isinstance(n.ctx, ast.Load) for s in f.body if s is not holder for n in ast.walk(s))
         if not used and holder in f.body:
             f.body.remove(holder)
+    _split_tuple_assignments(f)  # `a, b = helper(...)` has become `a, b = (a_h, b_h)`
     ast.fix_missing_locations(f)
     _renumber(f)
     for parent in ast.walk(f):
@@ -1590,6 +1592,81 @@ def _roll_then_set_first(tree):
     return n
 
 
+def _match_to_if(tree):
+    """`match <pure subject>:` over constants / dotted names / or-patterns of them / a final wildcard, no guards, no captures, is
+    the if / elif chain `subject == A`, `subject in [B, C]`, `else`.  Anything else (class, sequence, mapping patterns, guards,
+    captures) is left alone."""
+    if not hasattr(ast, "Match"):
+        return 0
+    n = 0
+
+    def simple(p):
+        if isinstance(p, ast.MatchValue):
+            return [("==", p.value)]
+        if isinstance(p, ast.MatchSingleton):
+            return [("is", ast.Constant(value=p.value))]
+        if isinstance(p, ast.MatchOr):
+            out = []
+            for q in p.patterns:
+                r = simple(q)
+                if r is None:
+                    return None
+                out += r
+            return out
+        return None
+
+    def convert(m):
+        if not is_pure(m.subject):
+            return None
+        arms = []
+        for k, c in enumerate(m.cases):
+            if c.guard is not None:
+                return None
+            if isinstance(c.pattern, ast.MatchAs) and c.pattern.pattern is None and c.pattern.name is None:
+                if k != len(m.cases) - 1:
+                    return None
+                arms.append((None, c.body))
+                continue
+            alts = simple(c.pattern)
+            if not alts:
+                return None
+            if len(alts) == 1:
+                op, v = alts[0]
+                test = ast.Compare(left=_dc(m.subject), ops=[ast.Eq() if op == "==" else ast.Is()], comparators=[v])
+            elif all(op == "==" for op, _ in alts):
+                test = ast.Compare(left=_dc(m.subject), ops=[ast.In()], comparators=[ast.List(elts=[v for _, v in alts], ctx=ast.Load())])
+            else:
+                test = ast.BoolOp(op=ast.Or(), values=[ast.Compare(left=_dc(m.subject), ops=[ast.Eq() if op == "==" else ast.Is()],
+                                                                   comparators=[v]) for op, v in alts])
+            arms.append((test, c.body))
+        node = None
+        for test, body in reversed(arms):
+            if test is None:
+                node = list(body)
+            else:
+                orelse = node if isinstance(node, list) else ([node] if node is not None else [])
+                node = ast.copy_location(ast.If(test=test, body=list(body), orelse=orelse), m)
+        if isinstance(node, list):  # only a wildcard arm
+            return node
+        return [node] if node is not None else None
+
+    for parent in list(ast.walk(tree)):
+        for fld in ("body", "orelse", "finalbody"):
+            blk = getattr(parent, fld, None)
+            if not isinstance(blk, list):
+                continue
+            i = 0
+            while i < len(blk):
+                if isinstance(blk[i], ast.Match):
+                    new = convert(blk[i])
+                    if new is not None:
+                        blk[i:i + 1] = new
+                        n += 1
+                        continue
+                i += 1
+    return n
+
+
 def normalize_module(tree):
     """in-place; returns a dict of counters (how many constructs were normalised) for the evidence"""
     repo_sigs = {}
@@ -1603,6 +1680,7 @@ def normalize_module(tree):
     out = dict(kwargs_to_positional=_kwargs_to_positional(tree, repo_sigs), tuple_assignments_split=_split_tuple_assignments(tree),
                update_to_item=_update_to_item_assignment(tree), local_defs_to_lambdas=_local_defs_to_lambdas(tree),
                dict_zip_to_literal=_dict_zip_to_literal(tree))
+    out["match_to_if"] = _match_to_if(tree)
     out["flag_loops_to_any"] = _flag_loops_to_any(tree)
     out["roll_then_set_first"] = _roll_then_set_first(tree)
     out["explicit_minmax"] = _explicit_minmax(tree)
